@@ -427,7 +427,7 @@ pub fn build(tier: &str) -> SimCheck {
         scenarios,
         oracle: Box::new(oracle),
         bound: 2,
-        limits: Limits { max_wall_s: if thorough { 1500.0 } else { 50.0 }, ..Default::default() },
+        limits: Limits { max_wall_s: if thorough { 1500.0 } else { 150.0 }, ..Default::default() },
         rule: "scenario = auth configuration (cleartext, trust, auth_query with hash present / absent / server down at pool creation / changed later / two users each with a hash of its own; a user / a whole pool taken out of the file by a RELOAD before the attempt; the pool moved by a RELOAD to another server that is down at that moment and knows another password) x startup (db,user) pair (configured, other user, unknown user/db, admin db in two spellings, non-admin user on the admin db, user only) x message sent in place of PasswordMessage (18 kinds incl. replayed salt, truncated, oversized, wrong type) followed at once by a tagged query x shutting down or not; verdict compared with the reference admission predicate; the same with a legitimate client logging in and running a statement concurrently (all interleavings with <= 2 deviations: neither connection may change the other's verdict); plus 96 connections opened up to the MD5 challenge: no salt issued twice".into(),
         assumptions: vec!["TLS startup not exercised".into()],
     }
